@@ -1,6 +1,7 @@
 import BoxoModel.C35.Mark
 import BoxoModel.C35.Types
 import BoxoModel.C35.Loop
+import BoxoModel.C35.Cache
 /-!
 # C35 — Bitswap per-peer want-list converges to the client's current wants
 
@@ -194,6 +195,39 @@ theorem c35_quiet_iff (s : St) : s.quiet ↔ (isIdle s.ph = true ∧ workCount s
   · rintro ⟨h1, h2, h3, h4⟩; simp [h1, h2, h3, h4]
   · rintro ⟨h1, h2⟩
     refine ⟨h1, ?_, ?_, ?_⟩ <;> apply List.eq_nil_of_length_eq_zero <;> omega
+
+/-- wantlist operations as a small language, to state the cache theorem over every history -/
+inductive WLOp where
+  | add (c : Nat) (p : Int) (t : WT)
+  | remove (c : Nat)
+  | removeType (c : Nat) (t : WT)
+  | entries
+
+def WLOp.run (w : CWL) : WLOp → CWL
+  | .add c p t => w.add c p t
+  | .remove c => w.remove c
+  | .removeType c t => w.removeType c t
+  | .entries => (w.entries).1
+
+/-- **The memoized `Entries()` slice of `wantlist.Wantlist` is transparent**: after any history of
+Add / Remove / RemoveType / Entries calls, `Entries()` returns the sorted content of the current set
+(every mutation goes through `put` / `delete`, which drop the cache). The message-queue model can
+therefore represent a want-list by its set alone. -/
+theorem c35_entries_cache_coherent (ops : List WLOp) :
+    ((ops.foldl WLOp.run {}).entries).2 = (ops.foldl WLOp.run {}).set.entries := by
+  have key : ∀ (ops : List WLOp) (w : CWL), w.Coherent → (ops.foldl WLOp.run w).Coherent := by
+    intro ops
+    induction ops with
+    | nil => intro w h; exact h
+    | cons o r ih =>
+      intro w h
+      apply ih
+      cases o with
+      | add c p t => exact CWL.coherent_add h c p t
+      | remove c => exact CWL.coherent_remove w c
+      | removeType c t => exact CWL.coherent_removeType h c t
+      | entries => exact (CWL.coherent_entries h).1
+  exact (CWL.coherent_entries (key ops {} CWL.coherent_init)).2.1
 
 /-! ### Non-vacuity: concrete interleavings (decided by evaluation of the model) -/
 
